@@ -283,3 +283,6 @@ def execution_input_in_context(x: int, has_a: bool, has_b: bool, rp: int, ip: in
     want = ref.run(asl, copy.deepcopy(data), ctx, None)
     got = run_engine(asl, data, None)
     return agree(got, want)
+
+import s2_more as more
+more.register(globals(), {"C02"}, ["gen_nested"], {"gen_nested": [("_canonical", "c0 == 0 and c1 == 0 and c2 == 0 and c3 == 0 and c4 == 0 and c5 == 0 and c6 == 0 and c7 == 0 and c8 == 0 and c9 == 0 and c10 == 0 and c11 == 0 and c12 == 0 and c13 == 0 and c14 == 0 and c15 == 0")]})
